@@ -77,4 +77,16 @@ def Enc.apply : Enc → List Char → Except PyErr (List Char)
     else throw (.raised "UnicodeEncodeError" "ascii")
   | .utf8Upper, s => pure (Str.upperAscii s)
 
+/-! ### normalisation lemmas (used by the tie proofs) -/
+
+theorem pure_eq_ok {α : Type} (x : α) : (pure x : Except PyErr α) = Except.ok x := rfl
+theorem ok_bind {α β : Type} (x : α) (f : α → Except PyErr β) : (Except.ok x >>= f) = f x := rfl
+theorem error_bind {α β : Type} (e : PyErr) (f : α → Except PyErr β) :
+    ((Except.error e : Except PyErr α) >>= f) = Except.error e := rfl
+theorem orM_ok (a b : Bool) : orM (.ok a) (.ok b) = .ok (a || b) := by cases a <;> rfl
+theorem andM_ok (a b : Bool) : andM (.ok a) (.ok b) = .ok (a && b) := by cases a <;> rfl
+theorem notM_ok (a : Bool) : notM (.ok a) = .ok (!a) := rfl
+theorem dt_some (v : TVal) : dt (some v) = .ok v := rfl
+theorem dtDur_some (v : Int) : dtDur (some v) = .ok v := rfl
+
 end Xandikos.Py
